@@ -140,6 +140,12 @@ class Server(object):
         with Timeout(self.command_timeout):
             return self.io.recv_command()
 
+    def _flush_send(self):
+        # A client that does not read its replies must not hold the session:
+        # sending is bounded like waiting for the next command.
+        with Timeout(self.command_timeout):
+            self.io.flush_send()
+
     def _get_message_data(self):
         max_size = self.extensions.getparam('SIZE', filter=int)
         reader = DataReader(self.io, max_size)
@@ -158,7 +164,7 @@ class Server(object):
         self._call_custom_handler('HAVE_DATA', reply, data, err)
 
         self.io.send_reply(reply)
-        self.io.flush_send()
+        self._flush_send()
 
         self.have_mailfrom = None
         self.have_rcptto = None
@@ -224,12 +230,15 @@ class Server(object):
                     unhandled_error.send(self.io)
                     raise
                 finally:
-                    self.io.flush_send()
+                    self._flush_send()
 
                 command, arg = self._recv_command()
             except Timeout:
                 timed_out.send(self.io)
-                self.io.flush_send()
+                try:
+                    self._flush_send()
+                except Timeout:
+                    pass
                 raise ConnectionLost()
 
     def _gather_params(self, remaining):
